@@ -20,7 +20,7 @@ RULE = (
     "Non-trivial = >=1 queued origin whose flow is not demand-limited in some state (reference-model branch label) "
     "and >=1 interior ramp, outputs finite. Distinct = SHA-1 of the case."
 )
-BUDGET = {"quick": {"examples": 250, "shards": 4}, "thorough": {"examples": 2500, "shards": 16}}
+BUDGET = {"quick": {"examples": 250, "shards": 4}, "thorough": {"fuzz_runs": 3000, "examples": 2500, "shards": 16}}
 EXPECTED_LABELS = ("engine:SX", "engine:MX", "compact:-1", "compact:0", "compact:1", "compact:2", "compact:3", "T:symbolic",
                    "interior-ramp", "origin:ideal", "origin:main", "origin:ramp_in", "origin:ramp_out", "origin:simp_lim",
                    "origin:simp_unl", "merge")
@@ -52,12 +52,12 @@ def check_case(case, ctx):
         key = case["T_symbolic"]
         Ts = getattr(cs, sym).sym(key)
         par_over, parameters, values = {"T": Ts}, {key: Ts}, {key: sp["pars"]["T"]}
+    params = [(k, 1) for k in (parameters or {})]
     r = guarded(ctx, "compile", cas.compile_net, sp, sym, compact, True, (), None, par_over, parameters)
     if crashed(r):
         return
     F, net, els = r
     lay = layout.Layout(sp, layout.element_order(net, els))
-    params = [(k, 1) for k in (parameters or {})]
     T = sp["pars"]["T"]
     finite = True
     notdemand = False
